@@ -18,6 +18,7 @@ from mc.seams import ScriptedRandom, MENU_QUICK, MENU_FULL
 from mc.oracles import padding as O
 from checks import _c09_hist as H
 from checks import _c09_exact as X
+from checks import _c09_life as L
 
 PROP = "C09"
 LEVEL = "exploration"
@@ -42,7 +43,17 @@ RULE = (
     "{2,4}) x lens given/omitted (ChunkBySlices) x {no change, mode reassigned, value/padding_value reassigned, "
     "batch_first toggled, train/eval switched}, for every initial mode/layout; each call's rows reach the first "
     "and last frame and beyond and must equal the single-sequence oracle (RandomShift also the functional fed "
-    "the same scripted draws); results kept from earlier steps must stay unchanged and no argument may be modified. "
+    "the same scripted draws); results kept from earlier steps must stay unchanged and no argument may be modified; "
+    "a step that reassigns mode / value / padding_value / batch_first (all listed in the modules' __constants__) is "
+    "executed and only COUNTED (constants_reassigned_honoured / _ignored) and ends its history - verdicts come from "
+    "changes of N, T, lens given/omitted and train/eval. Object lifecycle (checks/_c09_life.py): each of the four "
+    "modules in 4-6 configurations (defaults, falsy-but-legal: value 0.0, proportion 0 / 0.0 / (0.0,1.0), "
+    "batch_first False) x {fresh; guards.lifecycle_variants: deepcopy, pickle, torch.save, used+deepcopy, "
+    "eval+deepcopy, state_dict, state_dict-after-use, double-float; and for training AND evaluation mode a "
+    "deepcopy / pickle / torch.save+load of the module alone, inside a torch.nn.Sequential, and as an attribute "
+    "of a model, mode set on the outermost object} - the (copied child) object is called on two batches and must "
+    "equal the oracle (RandomShift: functional under the same scripted draws in training mode, the input itself "
+    "in evaluation mode). "
     "Exact units (checks/_c09_exact.py): per api x mode x dtype {float64, int64, float32} x 4 padding values chosen "
     "so that a detour through another dtype shows (0.1, -1e300, 1/3, 2**24+1; 2**24+1, 2**53+1, 2**53-1 on int64; "
     "0.5, -7.5, 2**24, 0.1 on float32) with contents k+0.3 / 2**60+k / k+0.25: every row configuration for T=2 as "
@@ -66,9 +77,13 @@ ASSUMPTIONS = [
     "uniform draws only from the menu {0, 1/4, 3/4, 1-2^-24} (quick) / {0, 2^-24, 1e-6, 1/4, 1/2, 3/4, 1-2^-24}",
     "exact comparison (contents are small integers; float32 and int64, float64 in the exact units); CUDA not "
     "explored; TorchScript only in the exact units",
-    "object histories: at most 3 calls per object, attributes reassigned only to other legal values (mode, value, "
-    "padding_value, batch_first) and Module.train()/eval(); RandomShift histories use prop=1.0 and one fixed "
+    "object histories: at most 3 calls per object; reassigning an attribute listed in __constants__ on a live "
+    "module is not a supported reconfiguration and decides nothing (counted only); RandomShift histories use "
+    "prop=1.0 and one fixed "
     "draw pattern per step; device changes and TorchScript-compiled modules are not part of the histories",
+    "lifecycle variants are called on two small batches each, not on the whole enumeration; a copy is judged by "
+    "what it computes; in addition guards.lifecycle_variants reports a deepcopy of an eval-mode module that says it "
+    "is back in training mode",
     "exact units: the constant a tensor holds for a Python float value is the value itself (float64), the nearest "
     "single (float32), int(value) (int64); scripted / traced modules are built once per unit and run on the unit's "
     "batch only (not on the whole enumeration); a scripted or traced RandomShift draws from torch's own generator, "
@@ -597,6 +612,8 @@ def shards(tier, seed):
                    "ch": {"constant": 6, "replicate": 6, "reflect": 2}}
         t1 = {"pv": {"constant": 1, "replicate": 1, "reflect": 1}, "ch": {"constant": 2, "replicate": 1, "reflect": 1}}
     # cheap parts first, so that a wall budget that runs out can never drop a whole API
+    for kind in L.KINDS:
+        out.append({"pass": "life", "kind": kind})
     for kind in ("pv", "ch", "pms", "rs"):
         out.append({"pass": "exact", "kind": kind})
     for kind in H.KINDS:
@@ -635,6 +652,8 @@ def run_shard(spec, tier, seed):
         pms_pass(ctx, spec["N"], spec["T"], seed)
     elif spec["pass"] == "exact":
         X.exact_pass(ctx, spec["kind"], seed)
+    elif spec["pass"] == "life":
+        L.life_pass(ctx, spec["kind"], seed)
     elif spec["pass"] == "hist":
         H.hist_pass(ctx, spec["kind"], spec["init"], tier, seed, spec["i"], spec["of"])
     else:
@@ -682,6 +701,8 @@ def replay(case):
         H.replay(ctx, case)
     elif part == "exact":
         X.replay(ctx, case)
+    elif part == "life":
+        L.replay(ctx, case)
     elif part == "rs-ctor":
         ctx.case(1, 1)
         try:
